@@ -38,6 +38,9 @@ def gen_scenario(rng, tier):
            'defs': defs, 'regs': regs}
     if rng.random() < 0.3:
         scn['decode_errors'] = rng.choice(['ignore', 'replace', 'backslashreplace'])
+    if rng.random() < 0.04:
+        scn['files'][0]['content'] = gen.magic_prefixed(rng, content).hex()
+        scn['decode_errors'] = rng.choice(['ignore', 'replace', 'backslashreplace'])
     return scn
 
 
